@@ -101,10 +101,10 @@ def run(tier, seed):
                    "GV.Spec.Utf8 = my transcription of Unicode Table 3-7 and the Go spec"]
     chk.assumptions = ["JS strings holding Go strings contain only code units 0..255 (compiler invariant, observed not proved)",
                        "V8 implements charCodeAt/String.fromCharCode/bit operators per ECMAScript"]
-    chk.proof = C.check_proofs("GV.Props.C14", ["GV.Props.C14." + t for t in THEOREMS], tier)
+    chk.proof = C.check_proofs("C14", THEOREMS, tier)
     ops = gen_ops(tier, chk.rng)
     impl = C.run_node(ops)
-    model = C.run_driver(ops)
+    model = C.run_driver("C14", ops)
     chk.compare("prelude-utf8", ops, impl, model, kind=kind)
     chk.extra["exhaustive"] = False
     chk.extra["exhaustive_subspace"] = "all byte strings of length <= %d over %d boundary bytes x all positions" % (
@@ -119,7 +119,7 @@ def replay(path):
         print("no failing input recorded; broken obligations:", rep.get("broken_obligations"))
         return 1
     impl = C.run_node(ops)
-    model = C.run_driver(ops)
+    model = C.run_driver("C14", ops)
     bad = 0
     for o, a, b in zip(ops, impl, model):
         print("%s\n  impl : %s\n  model: %s" % (o, a, b))
